@@ -465,6 +465,10 @@ fn receiver_body(c: &mut Ctx, su: &Setup, thorough: bool) -> Result<(), Violatio
     let mut fin_sent = false;
     let mut delivered: u64 = 0;
     let mut eof = false;
+    let ingress_bursts = c.tape.draw(6) == 0;
+    if ingress_bursts {
+        c.stats.inc("c04.ingress-burst-runs");
+    }
     let mut acked_beyond = false;
     // victim-side stream (so that ACK fields matter)
     let vkey = c.tape.draw(u64::MAX) | 2;
@@ -501,6 +505,15 @@ fn receiver_body(c: &mut Ctx, su: &Setup, thorough: bool) -> Result<(), Violatio
                     3 => maxlen.min(2 * win + 1),
                     4 => maxlen.min(c.tape.size(0, 1500)),
                     _ => c.tape.draw(maxlen + 1),
+                };
+                // ingress-burst runs: half of the segments simply continue the stream up to the advertised right edge,
+                // or a few octets past it (the edge the victim advertised last - nothing newer is on the wire)
+                let (start, len) = if ingress_bursts && c.tape.draw(2) == 0 {
+                    let s0 = sent.prefix().min(total);
+                    let room = edge_off.saturating_sub(s0) + c.tape.draw(3);
+                    (s0, room.min(total - s0).min(if thorough { 65_000 } else { 20_000 }))
+                } else {
+                    (start, len)
                 };
                 let at_end = start + len == total;
                 let fin = at_end && c.tape.chance(1, 2);
@@ -561,8 +574,12 @@ fn receiver_body(c: &mut Ctx, su: &Setup, thorough: bool) -> Result<(), Violatio
                     }
                     c.stats.inc("c04.must-accept-checked");
                 }
-                let more = c.poll()?;
-                check_acks(c, &more, data_seq0, &sent, fin_sent, total, c.v_edge, &summary)?;
+                // (in "ingress burst" runs the node takes in several frames before it gets round to transmitting:
+                // what it accepts meanwhile is still bounded by the window it advertised last)
+                if !ingress_bursts || c.tape.draw(4) == 0 {
+                    let more = c.poll()?;
+                    check_acks(c, &more, data_seq0, &sent, fin_sent, total, c.v_edge, &summary)?;
+                }
             }
             6 | 7 => {
                 // ---- application read
@@ -745,6 +762,7 @@ fn sender_body(c: &mut Ctx, su: &Setup, thorough: bool) -> Result<(), Violation>
         _ => 0,
     };
     let mut cur_ack: u32 = iss.wrapping_add(1);
+    let mut p_fin_sent = false;
     // SYN/SYN-ACK windows are never scaled; the final ACK of a passive-open handshake is
     let mut cur_win: u64 = if su.victim_listens { (init_win as u64) << pshift } else { init_win as u64 };
     let mut max_sent_off: i64 = 1;
@@ -875,7 +893,16 @@ fn sender_body(c: &mut Ctx, su: &Setup, thorough: bool) -> Result<(), Violation>
             if new_win == 0 {
                 c.stats.inc("c05.win-zero");
             }
-            let mut t = Tcp { seq: c.irs.wrapping_add(1), ack: new_ack, flags: F_ACK, win: win_raw, ..Tcp::default() };
+            // the peer may close its own direction at some point (FIN on one of its ACKs): the victim goes on sending
+            // in CLOSE-WAIT and, once its application closes, in LAST-ACK - the same window rules apply there
+            let mut flags = F_ACK;
+            let p_seq = c.irs.wrapping_add(1).wrapping_add(p_fin_sent as u32);
+            if !p_fin_sent && c.tape.draw(25) == 0 {
+                flags |= F_FIN;
+                p_fin_sent = true;
+                c.stats.inc("c05.peer-fin-sent");
+            }
+            let mut t = Tcp { seq: p_seq, ack: new_ack, flags, win: win_raw, ..Tcp::default() };
             // sometimes the ACK carries one to four SACK blocks (out-of-order data the receiver holds, or duplicates
             // it saw): whatever the sender makes of them, the ACK number and window of that segment count
             if c.tape.draw(6) == 0 {
